@@ -89,11 +89,14 @@ const (
 	c16P2POther                    // foreign IP, /p2p/<someone else> appended
 	c16Empty                       // zero-length address bytes
 	c16DNSTwo                      // /dns4 name with two A records (a foreign IP and the observed IP)
+	c16Doc4                        // 203.0.113/24 (documentation range): neither private nor public, tcp (a transport would dial it)
+	c16Multicast4                  // 224.0.0.251 quic-v1: neither private nor public
+	c16Doc6                        // 2001:db8::/32 quic-v1: neither private nor public
 	c16NumClasses
 )
 
 var c16ClassNames = []string{"same-ip", "foreign-ip", "private", "unparsable", "no-transport", "dns-ws", "foreign-ip6-quic",
-	"circuit", "dns-no-transport", "p2p-self", "p2p-other", "empty-bytes", "dns-two-records"}
+	"circuit", "dns-no-transport", "p2p-self", "p2p-other", "empty-bytes", "dns-two-records", "documentation-ip4", "multicast-ip4", "documentation-ip6"}
 
 const (
 	c16No      = 0 // by construction not (public and dialable)
@@ -101,7 +104,7 @@ const (
 	c16Unknown = 2 // the statement does not say (no requirement derived from it)
 )
 
-var c16ClassLabel = []int{c16Yes, c16Yes, c16No, c16No, c16No, c16Yes, c16Yes, c16No, c16No, c16Yes, c16Unknown, c16No, c16Yes}
+var c16ClassLabel = []int{c16Yes, c16Yes, c16No, c16No, c16No, c16Yes, c16Yes, c16No, c16No, c16Yes, c16Unknown, c16No, c16Yes, c16No, c16No, c16No}
 
 func c16IPAddr(ip string) string {
 	if net.ParseIP(ip).To4() != nil {
@@ -141,6 +144,12 @@ func c16AddrBytes(ids *c16IDs, ob c16Obs, requester peer.ID, c c16Class, pos int
 		return []byte{}
 	case c16DNSTwo:
 		s = fmt.Sprintf("/dns4/two.example.com/tcp/%d/ws", port)
+	case c16Doc4:
+		s = fmt.Sprintf("/ip4/203.0.113.7/tcp/%d", port)
+	case c16Multicast4:
+		s = fmt.Sprintf("/ip4/224.0.0.251/udp/%d/quic-v1", port)
+	case c16Doc6:
+		s = fmt.Sprintf("/ip6/2001:db8::7/udp/%d/quic-v1", port)
 	}
 	return ma.StringCast(s).Bytes()
 }
@@ -941,6 +950,10 @@ func c16SelfTest(t *testing.T, ids *c16IDs, obs []c16Obs) {
 				if err != nil || manet.IsPublicAddr(m) {
 					t.Fatalf("c16 harness self-test: %s is not private", m)
 				}
+			case c16Doc4, c16Multicast4, c16Doc6:
+				if err != nil || manet.IsPublicAddr(m) || manet.IsPrivateAddr(m) {
+					t.Fatalf("c16 harness self-test: %s should be neither public nor private", m)
+				}
 			default:
 				if err != nil || !manet.IsPublicAddr(m) {
 					t.Fatalf("c16 harness self-test: class %s address %v is not public (%v)", c16ClassNames[c], m, err)
@@ -956,7 +969,7 @@ func c16Server(t *testing.T) {
 	c16SelfTest(t, ids, obs)
 
 	base := []c16Class{c16Same, c16Foreign, c16Private, c16Unparsable, c16NoTransport, c16DNS}
-	ext := []c16Class{c16Same, c16Foreign, c16Private, c16Unparsable, c16NoTransport, c16DNS, c16Foreign6, c16Circuit, c16DNSNoTpt, c16P2PSelf, c16P2POther, c16Empty, c16DNSTwo}
+	ext := []c16Class{c16Same, c16Foreign, c16Private, c16Unparsable, c16NoTransport, c16DNS, c16Foreign6, c16Circuit, c16DNSNoTpt, c16P2PSelf, c16P2POther, c16Empty, c16DNSTwo, c16Doc4, c16Multicast4, c16Doc6}
 	allBeh := []c16Beh{}
 	for b := c16Beh(0); b < c16NumBeh; b++ {
 		if b == c16BFragmented && !vrep.Thorough() {
@@ -986,7 +999,7 @@ func c16Server(t *testing.T) {
 			addLists(ob, c16Lists(ext, 3), allBeh)
 		}
 		addLists(0, c16Lists(base, 4), allBeh)
-		r.Bounds["address_lists"] = "observed ip4-tcp, ip6-quic, relayed, no-ip: every list of length 0..3 over 13 classes; plus length 4 over the 6 base classes (observed ip4-tcp); plus 7 lists of 50/51 entries"
+		r.Bounds["address_lists"] = "observed ip4-tcp, ip6-quic, relayed, no-ip: every list of length 0..3 over 16 classes; plus length 4 over the 6 base classes (observed ip4-tcp); plus 7 lists of 50/51 entries"
 	} else {
 		addLists(0, c16Lists(base, 3), allBeh)
 		addLists(0, c16Lists(ext, 2), allBeh)
@@ -994,7 +1007,7 @@ func c16Server(t *testing.T) {
 			addLists(ob, c16Lists(base, 2), allBeh)
 			addLists(ob, c16Lists(ext, 1), allBeh)
 		}
-		r.Bounds["address_lists"] = "observed ip4-tcp: every list of length 0..3 over 6 base classes and 0..2 over 13 classes; observed ip6-quic, relayed, no-ip: length 0..2 over 6 classes, 0..1 over 13; plus 7 lists of 50/51 entries"
+		r.Bounds["address_lists"] = "observed ip4-tcp: every list of length 0..3 over 6 base classes and 0..2 over 16 classes; observed ip6-quic, relayed, no-ip: length 0..2 over 6 classes, 0..1 over 16; plus 7 lists of 50/51 entries"
 	}
 	for _, lk := range c16LongKinds {
 		for _, ok := range []bool{false, true} {
